@@ -52,6 +52,11 @@ def alphabet():
     for o in OPTIONS:
         A.append(("-C%s=bogus" % o, ["-C%s=bogus" % o], ("error",)))
     A.append(("-Cif_style=list", ["-Cif_style=list"], ("error",)))  # a value legal for another option
+    for o in OPTIONS:
+        v = LEGAL[o][1]
+        A.append(("-C%s=%s" % (o, v.upper()), ["-C%s=%s" % (o, v.upper())], ("error",)))  # legal value in another letter case
+    A.append(("-Cif_style=Short_circuit", ["-Cif_style=Short_circuit"], ("error",)))
+    A.append(("-Cunparser= oneliner", ["-Cunparser= oneliner"], ("error",)))
     A.append(("-Cunknown=1", ["-Cunknown=1"], ("error",)))
     for n in ("config_names", "__init__", "__doc__", "__class__"):
         A.append(("-C%s=x" % n, ["-C%s=x" % n], ("error",)))
